@@ -7,11 +7,13 @@ def parseChunk (w : String) : Option Chunk :=
   if w == "f" then some .fail
   else if w.startsWith "d:" then (parseHex (w.drop 2).toString).map (Chunk.data · false)
   else if w.startsWith "e:" then (parseHex (w.drop 2).toString).map (Chunk.data · true)
+  else if w.startsWith "x:" then (parseHex (w.drop 2).toString).map Chunk.dataErr
   else none
 
 def avail : Stream → Nat
   | [] => 0
   | .fail :: r => avail r
+  | .dataErr b :: r => b.length + avail r
   | .data b _ :: r => b.length + avail r
 
 def fmtMsg (m : Msg) : String :=
@@ -34,6 +36,11 @@ def readLoop (max : Nat) : Nat → Stream → List String → List String
 def run (max : Nat) (args : List String) : String :=
   match args with
   | "msg.read" :: k :: chunks =>
+    match chunks.mapM parseChunk with
+    | none => "bad-op"
+    | some s => " ".intercalate (readLoop max k.toNat! s [])
+  -- one `Message` value filled again by every read: a message is what its bytes say, whatever was read before
+  | "msg.reread" :: k :: chunks =>
     match chunks.mapM parseChunk with
     | none => "bad-op"
     | some s => " ".intercalate (readLoop max k.toNat! s [])
